@@ -5,9 +5,10 @@ METHS = ['m0', 'm1', 'm2']
 ARGS = ['_', '1', '0.N', 'sa.2', '1|k=2', '_|a=N.b=sx', '7.8.9']
 
 
-def gen_universe(rng, max_classes=5, max_objs=5, mixins=True):
+def gen_universe(rng, max_classes=5, max_objs=5, mixins=True, evs=None):
     """Handler class hierarchy with a single lineage of mappings (+ plain mixins)."""
     lines, mapping_of, handler_classes, mixin_classes = [], [], [], []
+    EVS = evs or globals()['EVS']
     pyc = []        # real (empty) classes, to reject what Python's C3 linearisation rejects
     n = rng.randint(1, max_classes)
     for cid in range(n):
@@ -51,8 +52,8 @@ def gen_universe(rng, max_classes=5, max_objs=5, mixins=True):
             ','.join(f'{k}:{v}' for k, v in kw.items()) or '-', ','.join(over) or '-'))
     if not handler_classes:
         cid = n
-        lines.append(f'class {cid} bases=- names=e0 kw=-')
-        mapping_of.append({'e0': 'e0'})
+        lines.append(f'class {cid} bases=- names={EVS[0]} kw=-')
+        mapping_of.append({EVS[0]: EVS[0]})
         handler_classes.append(cid)
     objs = {}
     for oid in range(rng.randint(1, max_objs)):
